@@ -389,7 +389,7 @@ int dorewritemodattr(struct tlv *attr, struct modattr *modattr) {
     int i;
     char *in, *out;
 
-    in = stringcopy((char *)attr->v, attr->l);
+    in = stringcopy(attr->v ? (char *)attr->v : "", attr->l);
     if (!in)
         return 0;
 
